@@ -143,6 +143,12 @@ def replay(path, root_override=None):
 
 
 def main(argv=None):
+    try:
+        import signal
+
+        signal.signal(signal.SIGPIPE, signal.SIG_DFL)
+    except Exception:
+        pass
     ap = argparse.ArgumentParser(prog="check")
     ap.add_argument("prop", nargs="?")
     ap.add_argument("--tier", default=os.environ.get("VERIF_TIER", "quick"), choices=["quick", "thorough"])
